@@ -638,6 +638,17 @@ func (p *Parser) ParsingIter() iter.Seq[*ParserReply] {
 				if flushed {
 					continue
 				}
+				if err == nil && p.lexer.insideLiteral() {
+					// the text so far ends inside a string or rune
+					// literal: an unfinished prefix, like an open
+					// bracket. Ask for the rest instead of silently
+					// dropping the literal.
+					p.sendMe.Err = ErrMoreInputNeeded
+					if !yield(p.sendMe) {
+						return
+					}
+					continue
+				}
 			}
 			if err != nil || expr == SexpEnd {
 				p.sendMe.Err = err
